@@ -145,7 +145,6 @@ pub struct OrderedLocalQueue<'l, T: Debug> {
     shared: &'l OrderedWorkStealQueue<T>,
     stealing: AtomicBool,
     queue: &'l SkipMap<c_longlong, Worker<T>>,
-    len: AtomicUsize,
 }
 
 impl<T: Debug> Drop for OrderedLocalQueue<'_, T> {
@@ -176,7 +175,6 @@ impl<'l, T: Debug> OrderedLocalQueue<'l, T> {
             shared,
             stealing: AtomicBool::new(false),
             queue,
-            len: AtomicUsize::new(0),
         }
     }
 
@@ -239,7 +237,14 @@ impl<'l, T: Debug> OrderedLocalQueue<'l, T> {
 
     /// Returns the number of elements in the queue.
     pub fn local_len(&self) -> usize {
-        self.len.load(Ordering::Acquire)
+        // derive the length from the workers: a sibling's steal takes items
+        // away without going through this `OrderedLocalQueue`
+        let mut len = 0;
+        for entry in self.queue {
+            let worker = entry.value();
+            len += worker.capacity() - worker.spare_capacity();
+        }
+        len
     }
 
     /// Returns the number of elements in the all queues.
@@ -305,10 +310,6 @@ impl<'l, T: Debug> OrderedLocalQueue<'l, T> {
             .push(item)
         {
             self.push_to_global(priority, item);
-        } else {
-            //add count
-            self.len
-                .store(self.local_len().saturating_add(1), Ordering::Release);
         }
     }
 
@@ -321,6 +322,7 @@ impl<'l, T: Debug> OrderedLocalQueue<'l, T> {
         });
         let mut done = 0;
         while done < count {
+            let before = done;
             for entry in self.queue.iter().rev() {
                 if done >= count {
                     break;
@@ -339,10 +341,11 @@ impl<'l, T: Debug> OrderedLocalQueue<'l, T> {
                     done += 1;
                 }
             }
+            if done == before {
+                // nothing left to move (siblings may have stolen meanwhile)
+                break;
+            }
         }
-        // refresh count
-        self.len
-            .store(self.local_len().saturating_sub(count), Ordering::Release);
         //直接放到全局队列
         self.shared.push_with_priority(priority, item);
     }
@@ -460,13 +463,6 @@ impl<'l, T: Debug> OrderedLocalQueue<'l, T> {
                                     into_queue.capacity() - into_queue.spare_capacity()
                                 )
                             });
-                            // refresh local len
-                            self.len.store(
-                                self.local_len().saturating_add(
-                                    into_queue.capacity() - into_queue.spare_capacity(),
-                                ),
-                                Ordering::Release,
-                            );
                             self.release_lock();
                             return self.pop_local();
                         }
@@ -483,9 +479,6 @@ impl<'l, T: Debug> OrderedLocalQueue<'l, T> {
         //从本地队列弹出元素
         for entry in self.queue {
             if let Some(val) = entry.value().pop() {
-                // Decrement the count.
-                self.len
-                    .store(self.local_len().saturating_sub(1), Ordering::Release);
                 return Some(val);
             }
         }
